@@ -230,7 +230,37 @@ def _next_chars(ex, st, itref, it, k):
     return k(st, mk_some(cs.e[i.v]))
 
 
+def _next_map_while(ex, st, itref, it, k):
+    inner_ref = _inner(itref)
+    f, done = it.f[1], it.f[2]
+    if done:
+        return k(st, NONE)
+
+    def stop(s):
+        cur = ex.read_ref(s, itref)
+        ex.write_ref(s, itref, Struct('MapWhile', (cur.f[0], cur.f[1], True)))
+        return k(s, NONE)
+
+    def cont(st2, o):
+        if o.variant == 'None':
+            return k(st2, NONE)
+        return call_fn(f, [o.f[0]], lambda st3, r: on_option(r, lambda s, v: k(s, mk_some(v)), stop, st3))
+    return iter_next(ex, st, inner_ref, cont)
+
+
+def _next_inspect(ex, st, itref, it, k):
+    f = it.f[1]
+
+    def cont(st2, o):
+        if o.variant == 'None':
+            return k(st2, NONE)
+        x = o.f[0]
+        return call_fn(f, [Ref(('V', x))], lambda st3, r: k(st3, mk_some(x)))
+    return iter_next(ex, st, _inner(itref), cont)
+
+
 _bi.ITER_EXT.update({
+    'MapWhile': _next_map_while, 'Inspect': _next_inspect,
     'Filter': _next_filter, 'FilterMap': _next_filter_map, 'Skip': _next_skip, 'Take': _next_take,
     'SkipWhile': _next_skip_while, 'TakeWhile': _next_take_while, 'Copied': _next_copied, 'Zip': _next_zip,
     'Chain': _next_chain, 'RevSliceIter': _next_rev_slice, 'RevVecIter': _next_rev_vec, 'RevRange': _next_rev_range,
@@ -294,6 +324,21 @@ def it_step_by(ex, st, info, args):
     if not args[1].concrete or args[1].v == 0:
         raise ExecError('step_by(symbolic or 0)')
     return Struct('StepBy', (args[0], args[1], True))
+
+
+@B.trait('Iterator', 'map_while')
+def it_map_while(ex, st, info, args):
+    return Struct('MapWhile', (args[0], args[1], False))
+
+
+@B.trait('Iterator', 'inspect')
+def it_inspect(ex, st, info, args):
+    return Struct('Inspect', (args[0], args[1]))
+
+
+@B.trait('Iterator', 'fuse')
+def it_fuse(ex, st, info, args):
+    return args[0]
 
 
 @B.trait('Iterator', 'by_ref')
@@ -368,6 +413,67 @@ def it_fold(ex, st, info, args):
     return drive(ex, st, it, init,
                  lambda s, acc, x, go, stop: call_fn(f, [acc, x], lambda s2, r: go(s2, r)),
                  lambda s, acc: acc)
+
+
+def _try_kind(r):
+    """classify a Try value: ('continue', payload) | ('break', residual value to return)"""
+    if isinstance(r, Enum) and r.ty == 'Result':
+        return ('continue', r.f[0]) if r.variant == 'Ok' else ('break', r)
+    if isinstance(r, Enum) and r.ty == 'Option' and r.variant is not None:
+        return ('continue', r.f[0]) if r.variant == 'Some' else ('break', r)
+    if isinstance(r, Enum) and r.ty == 'ControlFlow':
+        return ('continue', r.f[0]) if r.variant == 'Continue' else ('break', r)
+    raise ExecError('try_fold / try_for_each closure returned %r' % (r,))
+
+
+@B.trait('Iterator', 'try_for_each')
+def it_try_for_each(ex, st, info, args):
+    itref, f = args
+    wrap = {'v': None}
+
+    def step(s, acc, x, go, stop):
+        def k(s2, r):
+            if isinstance(r, Enum) and r.ty == 'Option' and r.variant is None:
+                return Choices([(c_, (lambda s3, ov=ov: k(s3, ov))) for c_, ov in split_option(r)])
+            kind, p = _try_kind(r)
+            wrap['v'] = r
+            return go(s2, None) if kind == 'continue' else stop(s2, r)
+        return call_fn(f, [x], k)
+
+    def fin(s, acc):
+        r = wrap['v']
+        tgt = (generic_args(info['generics']) or [''])[-1] if info.get('generics') else ''
+        if (r is not None and isinstance(r, Enum) and r.ty == 'Option') or type_key(tgt) == 'Option':
+            return mk_some(UNIT)
+        if (r is not None and isinstance(r, Enum) and r.ty == 'ControlFlow') or type_key(tgt) == 'ControlFlow':
+            return Enum('ControlFlow', 'Continue', (UNIT,))
+        return Enum('Result', 'Ok', (UNIT,))
+    return _drive_ref(ex, st, itref, step, fin)
+
+
+@B.trait('Iterator', 'try_fold')
+def it_try_fold(ex, st, info, args):
+    itref, init, f = args
+    wrap = {'ty': None}
+
+    def step(s, acc, x, go, stop):
+        def k(s2, r):
+            if isinstance(r, Enum) and r.ty == 'Option' and r.variant is None:
+                return Choices([(c_, (lambda s3, ov=ov: k(s3, ov))) for c_, ov in split_option(r)])
+            kind, p = _try_kind(r)
+            wrap['ty'] = r.ty
+            return go(s2, p) if kind == 'continue' else stop(s2, r)
+        return call_fn(f, [acc, x], k)
+
+    def fin(s, acc):
+        tgt = (generic_args(info['generics']) or [''])[-1] if info.get('generics') else ''
+        ty = wrap['ty'] or type_key(tgt)
+        if ty == 'Option':
+            return mk_some(acc)
+        if ty == 'ControlFlow':
+            return Enum('ControlFlow', 'Continue', (acc,))
+        return Enum('Result', 'Ok', (acc,))
+    return _drive_ref(ex, st, itref, step, fin, init=init)
 
 
 @B.trait('Iterator', 'for_each')
